@@ -13,7 +13,7 @@ TRACKS = ["_", "x", "y", 0, 1, "A"]
 RULE = ("(annotation a, annotation b = a rebuilt in shuffled insertion order with at most one perturbation: a segment "
         "bound, a track name, a label, an extra or a missing track; different uri/modality): observed a==b, a!=b, "
         "copy/from_records/from_df/timeline round trips, timeline ==/!=, to_rttm / to_lab / to_uem (also through "
-        "write_*), str(segment); times shifted to negative values in a third of the cases; uris and labels with spaces "
+        "write_*), str(segment); times shifted to negative values in a third of the cases and beyond one day (either sign) in 8%; uris and labels with spaces "
         "in 15%; regimes K0 (1/1024 s grid, exercises .3f rounding ties), K4, K1; non-trivial = at least two records")
 
 
@@ -43,6 +43,11 @@ def generate(rng, tier):
             if rng.random() < 0.33:
                 off = rng.choice([3, 20, 100]) * (5 if regime == "K4" else 1) + (1 if regime == "K0" else 0)
                 a = [[[s[0] - off, s[1] - off], t, l] for s, t, l in a]
+            if rng.random() < 0.08:
+                # times beyond one day (hours do not wrap in the printed form), either sign
+                from harness.timebase import REGIMES as _R
+                big = rng.choice([90000, -90000, 400000, 86400]) * _R[regime]["scale"]
+                a = [[[s[0] + big, s[1] + big], t, l] for s, t, l in a]
             if regime == "K0" and rng.random() < 0.5:
                 # spread over the 1/1024 grid so that .3f rounding is exercised
                 m = rng.choice([1, 3, 37, 64, 125, 333])
